@@ -1851,3 +1851,177 @@ def _unroll_one(b):
         hb['unrolled'] = True
         return True
     return False
+
+
+
+# N2b a method of the pinned tree that is now a *default method* of its (crate-private) trait: for every impl of the trait that
+#     does not override it, the impl's own copy is materialised — the default body with Self := the impl's type — and calls to
+#     new required methods of the same trait on Self are resolved to that impl and inlined.  Each role gets back the body the
+#     pinned tree had for it (`<OpModeR as OpMode>::get_psk_bytes`), built from what the code now says.
+def materialize_default_methods(doc):
+    crate = (doc.get('meta') or {}).get('crate', 'hpke')
+    pinned = set(pinned_keys().get(crate, []))
+    info = []
+    if not pinned:
+        doc.setdefault('meta', {})['materialized_defaults'] = info
+        return doc
+    bodies = doc['bodies']
+    by_key = {b['key']: b for b in bodies}
+    defaults = [b for b in bodies if b.get('default_of') and b['key'] not in pinned]
+    for im in doc.get('impls', []):
+        if im.get('trait_crate') != crate or not im.get('trait'):
+            continue
+        have = {f['name'] for f in (im.get('fns') or [])}
+        sib = [by_key[f['key']] for f in (im.get('fns') or []) if f['key'] in by_key]
+        for D in defaults:
+            df = D['default_of']
+            if df.get('trait') != im.get('trait_def') or df['name'] in have:
+                continue
+            K = '<%s as %s>::%s' % (im['self_ty'], im['trait'], df['name'])
+            if K not in pinned or K in by_key:
+                continue
+            nb = copy.deepcopy(D)
+            nb['key'] = K
+            nb['impl_of'] = {'self_ty': im['self_ty'], 'trait': im['trait'], 'name': df['name']}
+            nb['default_of'] = None
+            nb['materialized'] = D['key']
+            if sib:
+                nb['generics'] = list(sib[0].get('generics') or [])
+                if sib[0].get('generic_bounds') is not None:
+                    nb['generic_bounds'] = copy.deepcopy(sib[0]['generic_bounds'])
+            sub = _subst_types({'locals': nb['locals'], 'blocks': nb['blocks'], 'sig': nb.get('sig')}, {'Self': im['self_ty']}, doc)
+            nb['locals'], nb['blocks'] = sub['locals'], sub['blocks']
+            if nb.get('sig') is not None:
+                nb['sig'] = sub['sig']
+            bodies.append(nb)
+            by_key[K] = nb
+            # calls on Self to other methods of the same trait: this impl's methods
+            guard = 0
+            again = True
+            while again and guard < 16:
+                again = False
+                guard += 1
+                for bi, blk in enumerate(nb['blocks']):
+                    t = blk['term']
+                    fn = (t.get('func') or {}).get('fn') if t.get('k') == 'call' else None
+                    if not fn or fn.get('trait') != im.get('trait_def') or fn.get('self_ty') != im['self_ty']:
+                        continue
+                    tk = '<%s as %s>::%s' % (im['self_ty'], im['trait'], fn['name'])
+                    if tk not in by_key or tk == K:
+                        continue
+                    fn['resolved'] = {'path': tk, 'key': tk, 'local': True, 'crate': crate, 'kind': 'item', 'desc': 'item'}
+                    fn['local'] = True
+                    # same impl, same generic parameters: nothing to instantiate
+                    fn['subst_map'] = {'Self': im['self_ty']}
+                    if tk not in pinned and inline_call(nb, bi, by_key[tk], doc):
+                        again = True
+                        break
+            info.append(K)
+    doc.setdefault('meta', {})['materialized_defaults'] = info
+    return doc
+
+
+
+# N2c a private function of the pinned tree that has become generic over its *return type* — `fn f<R: From<X>, …>(…) -> R` ending
+#     in `R::from(x)` — is the pinned `fn f<…>(…) -> X` followed, at each (monomorphic) call site, by the conversion into that
+#     site's R.  The trailing conversion is hoisted out of the callee and re-attached after every call.
+def hoist_return_conversion(doc):
+    crate = (doc.get('meta') or {}).get('crate', 'hpke')
+    pinned = set(pinned_keys().get(crate, []))
+    done = []
+    bodies = doc['bodies']
+    for f in bodies:
+        if f['key'] not in pinned or f.get('exported') or f.get('kind') not in ('Fn', 'AssocFn'):
+            continue
+        gens = [g for g in (f.get('generics') or []) if not g.startswith("'")]
+        rty = f['locals'][0]['ty']
+        if rty not in gens or 'core::convert::From' not in ((f.get('generic_bounds') or {}).get(rty) or []):
+            continue
+        P = rty
+        # exactly one definition of _0: the call `<P as From<X>>::from(v)`, whose target returns
+        sites = []
+        for bi, blk in enumerate(f['blocks']):
+            if blk.get('cleanup'):
+                continue
+            for st in blk['stmts']:
+                if st.get('k') == 'assign' and st['place']['l'] == 0:
+                    sites.append(('stmt', bi))
+            t = blk['term']
+            if t.get('k') == 'call' and t.get('dest', {}).get('l') == 0:
+                sites.append(('call', bi))
+        if len(sites) != 1 or sites[0][0] != 'call':
+            continue
+        cbi = sites[0][1]
+        t = f['blocks'][cbi]['term']
+        fn = (t.get('func') or {}).get('fn') or {}
+        ga = fn.get('generic_args') or []
+        if fn.get('path') != 'core::convert::From::from' or fn.get('self_ty') != P or len(ga) != 2 or ga[0] != P or len(t['args']) != 1 or t['dest']['p'] or t.get('target') is None:
+            continue
+        X = ga[1]
+        rx = re.compile(r'(?<![\w:])' + re.escape(P) + r'(?![\w])')
+        if rx.search(X):
+            continue
+        # P occurs nowhere else in the body
+        others = [l for i, l in enumerate(f['locals']) if i != 0 and rx.search(l['ty'])]
+        if others:
+            continue
+        pidx = gens.index(P)
+        # every call of f is direct and names all generic arguments
+        calls = []
+        okc = True
+        for b in bodies:
+            for bi, blk in enumerate(b['blocks']):
+                ct = blk['term']
+                if ct.get('k') != 'call':
+                    continue
+                k2, fn2 = _callee_key(ct)
+                if k2 != f['key']:
+                    continue
+                g2 = [g for g in (fn2.get('generic_args') or []) if not g.startswith("'")]
+                if len(g2) != len(gens) or ct['dest']['p'] or ct.get('target') is None:
+                    okc = False
+                calls.append((b, bi, g2))
+        if not okc or not calls or _mentions_fn_value(doc, f['key']):
+            continue
+        # --- the callee returns X
+        f['locals'][0] = dict(f['locals'][0], ty=X, ty_raw=X)
+        blk = f['blocks'][cbi]
+        blk['stmts'].append({'k': 'assign', 'place': {'l': 0, 'p': []}, 'rv': {'k': 'use', 'op': t['args'][0]}, 'line': t.get('line'), 'exp': False, 'syn': 'hoist'})
+        blk['term'] = {'k': 'goto', 'target': t['target'], 'line': t.get('line'), 'syn': 'hoist'}
+        f['generics'] = [g for g in (f.get('generics') or []) if g != P]
+        if f.get('generic_bounds'):
+            f['generic_bounds'] = {k: v for k, v in f['generic_bounds'].items() if k != P}
+        if f.get('sig'):
+            f['sig'] = dict(f['sig'], output=X)
+        # --- every call site converts
+        for b, bi, g2 in calls:
+            cblk = b['blocks'][bi]
+            ct = cblk['term']
+            fn2 = ct['func']['fn']
+            T = g2[pidx]
+            tmap = {g: a for g, a in zip(gens, g2) if g != P and g != a}
+            Xc = _subst_types({'ty': X}, tmap, doc)['ty'] if tmap else X
+            b['locals'].append({'ty': Xc, 'ty_raw': Xc, 'name': None, 'mut': True, 'synthetic': True})
+            tmp = len(b['locals']) - 1
+            lifetimes = [g for g in (fn2.get('generic_args') or []) if g.startswith("'")]
+            rest = [g for i, g in enumerate(g2) if i != pidx]
+            fn2['generic_args'] = lifetimes + rest
+            fn2['path_args'] = '%s::<%s>' % (fn2['path'], ', '.join(lifetimes + rest)) if (lifetimes + rest) else fn2['path']
+            dest, target = ct['dest'], ct['target']
+            ct['dest'] = {'l': tmp, 'p': []}
+            ct['dest_ty'] = Xc
+            nb_i = len(b['blocks'])
+            ct['target'] = nb_i
+            pa = '<%s as core::convert::From<%s>>::from' % (T, Xc)
+            impl = [im for im in doc.get('impls', []) if im.get('trait_def') == 'core::convert::From' and im.get('self_ty') == T and im.get('trait') == 'core::convert::From<%s>' % Xc]
+            rk = impl[0]['fns'][0]['key'] if impl and impl[0].get('fns') else None
+            cfn = {'path': 'core::convert::From::from', 'path_args': pa, 'key': 'core::convert::From::from', 'crate': 'core', 'local': False, 'name': 'from',
+                   'generic_args': [T, Xc], 'def_kind': 'AssocFn', 'trait': 'core::convert::From', 'self_ty': T,
+                   'resolved': ({'path': rk, 'key': rk, 'local': True, 'crate': crate, 'kind': 'item', 'desc': 'item'} if rk else None)}
+            b['blocks'].append({'cleanup': False, 'syn': 'hoist', 'stmts': [],
+                                'term': {'k': 'call', 'func': {'k': 'const', 'ty': 'fn', 'text': pa, 'fn': cfn}, 'args': [{'k': 'move', 'place': {'l': tmp, 'p': []}}],
+                                         'arg_tys': [Xc], 'dest': dest, 'dest_ty': T, 'target': target, 'unwind': ct.get('unwind', 'continue'), 'source': 'Normal',
+                                         'line': ct.get('line'), 'fn_line': ct.get('line'), 'exp': False, 'syn': 'hoist'}})
+        done.append(f['key'])
+    doc.setdefault('meta', {})['hoisted_return_conversions'] = done
+    return doc
